@@ -24,7 +24,8 @@ ASSUMPTIONS = ["probe models stand for arbitrary models: ordering does not depen
                "deprecated entry points (exposure_mode etc.) are not driven"]
 REQUIRED_COUNTERS = ["probe_events", "m2_model_calls", "runs_exposure", "runs_observation",
                      "runs_observation_dask", "runs_calibration", "runs_history", "runs_exposure_after_observation", "calibration_evaluations_checked", "yaml_loaded",
-                     "debug_nodes_checked"]
+                     "debug_nodes_checked", "runs_with_override_dct", "falsy_overrides",
+                     "swept_model_has_namesake_in_earlier_group"]
 TIMEOUT = {"quick": 600, "thorough": 3000}
 
 MODES = ["exp_py", "exp_py_debug", "exp_py_hier", "exp_yaml", "exp_yaml_debug_hier",
@@ -67,12 +68,15 @@ def rand_pipeline(rng, groups=None, force_image=False):
         k = rng.randint(1, 10)
         groups = rng.sample(build.GROUPS, k)  # listing order is deliberately NOT canonical
     pspec = {}
+    # model names are unique inside a group only: a third of the pipelines reuse the same names in every group
+    # (as pyxel's own 'simple_collection' exists in two groups)
+    shared_names = rng.random() < 0.33
     for group in groups:
         models = []
         for j in range(rng.randint(1, 3)):
             args = {"a" + str(i): rand_value(rng) for i in range(rng.randint(0, 3))}
             args["n"] = rng.randint(0, 5)
-            models.append({"name": f"{group}_m{j}", "func": "vf.probes.trace",
+            models.append({"name": f"m{j}" if shared_names else f"{group}_m{j}", "func": "vf.probes.trace",
                            "arguments": args, "enabled": rng.random() < 0.7})
         pspec[group] = models
     if force_image:
@@ -96,12 +100,34 @@ def yaml_text(rng, doc):
     return re.sub(r"enabled: false\b", lambda _m: "enabled: " + rng.choice(FALSE_SPELLINGS), text)
 
 
-def first_enabled(pspec):
-    for group in build.GROUPS:
-        for m in pspec.get(group, []):
-            if m.get("enabled", True) and m["func"] == "vf.probes.trace":
-                return group, m
-    return None
+def pick_enabled(pspec, rng):
+    """Any enabled probe model (not the first one: a namesake in an earlier group must not be hit instead)."""
+    cands = [(group, m) for group in build.GROUPS for m in pspec.get(group, [])
+             if m.get("enabled", True) and m["func"] == "vf.probes.trace"]
+    return rng.choice(cands) if cands else None
+
+
+def namesake_before(pspec, group, model):
+    """True when a model with the same name sits in a group that runs earlier."""
+    return any(m["name"] == model["name"] for g in build.GROUPS[:build.GROUPS.index(group)] for m in pspec.get(g, []))
+
+
+def gen_overrides(pspec, rng):
+    """override_dct for run_mode: enabled flags toggled both ways and arguments set to falsy and truthy values.
+    Returns (overrides, effective pipeline spec)."""
+    eff = copy.deepcopy(pspec)
+    cands = [(g, m) for g, ms in eff.items() for m in ms if m["func"] == "vf.probes.trace"]
+    rng.shuffle(cands)
+    out = {}
+    for g, m in cands[:rng.randint(1, 3)]:
+        if rng.random() < 0.5:
+            m["enabled"] = not m.get("enabled", True)
+            out[f"pipeline.{g}.{m['name']}.enabled"] = m["enabled"]
+        else:
+            v = rng.choice([0, 0, 0.0, 7, 2.5, False])
+            m["arguments"]["n"] = v
+            out[f"pipeline.{g}.{m['name']}.arguments.n"] = v
+    return out, eff
 
 
 # ------------------------------------------------------------------ execution + oracle
@@ -242,9 +268,18 @@ def run_case(rec, ctx, index, pspec, n_steps, mode, rng, label):
                                       debug=debug, with_inherited_coords=hier)
             else:
                 detector = build.make_detector(dspec)
+                eff = pspec
+                kwargs = {}
+                if label == "random" and rng.random() < 0.4 and any(m["func"] == "vf.probes.trace" for ms in pspec.values() for m in ms):
+                    overrides, eff = gen_overrides(pspec, rng)
+                    kwargs["override_dct"] = overrides
+                    case["override_dct"] = overrides
+                    rec.count("runs_with_override_dct")
+                    rec.count("falsy_overrides", sum(1 for v in overrides.values() if not v))
                 tree = pyxel.run_mode(mode=Exposure(readout=Readout(**rspec)), detector=detector,
                                       pipeline=build.make_pipeline(pspec), debug=debug,
-                                      with_inherited_coords=hier)
+                                      with_inherited_coords=hier, **kwargs)
+                pspec = eff
             rec.count("runs_exposure")
             expected_runs = [build.expected_calls(pspec, n_steps)]
             evs = probes.events()
@@ -253,11 +288,12 @@ def run_case(rec, ctx, index, pspec, n_steps, mode, rng, label):
             if debug:
                 check_debug_tree(rec, tree, pspec, n_steps, case, index)
         else:
-            target = first_enabled(pspec)
+            target = pick_enabled(pspec, rng)
             if target is None:
                 rec.count("skipped_obs_no_enabled_probe")
                 return
             group, model = target
+            rec.count("swept_model_has_namesake_in_earlier_group", int(namesake_before(pspec, group, model)))
             values = rng.sample(range(10, 99), rng.randint(2, 3))
             # the swept setting is the argument `n` or an entry of a dictionary-valued argument
             model["arguments"]["cfg"] = {"k0": 1, "k1": [0.5, {"deep": 2}]}
@@ -335,7 +371,7 @@ def run_calibration_case(rec, ctx, index, rng):
     from pyxel.pipelines import FitnessFunction
 
     pspec = rand_pipeline(rng)
-    target = first_enabled(pspec)
+    target = pick_enabled(pspec, rng)
     if target is None:
         rec.count("skipped_calib_no_enabled_probe")
         return
